@@ -28,6 +28,7 @@ namespace bxdecay0 {
 
   void decay0_pair(i_random & prng_, event & event_, double epair_, double tclev_, double thlev_, double & tdlev_)
   {
+    BXDECAY0_VERIF_SCOPE("pair", epair_, tclev_, thlev_);
     double phi  = 2. * M_PI * prng_();
     double ctet = -1. + 2. * prng_();
     double teta = std::acos(ctet);
